@@ -726,6 +726,7 @@ func runEngineC(p *Prog, o *obls) {
 	}
 	runC6(p, o, la, acc, byField)
 	runC6b(p, o, la, acc, byField)
+	runC6c(p, o, la, byField)
 	runC2(p, o, la)
 	runC3(p, o, la)
 	runC4(p, o, la, wanted)
@@ -1861,6 +1862,161 @@ func runC6(p *Prog, o *obls, la *lockAnalysis, acc []accessSite, byField map[str
 			o.ok("C6", key, p.Pos(k.fn.Pos()), fmt.Sprintf("%d read-modify-write dependence(s), the guard is held continuously from the read to the store", nRMW))
 		}
 	}
+}
+
+// runC6c: look-up and removal in two critical sections. `delete(m, k)` on a guarded map after the entry m[k] was looked
+// up — directly, or through a getter that takes the guard itself — in an earlier critical section of the same function
+// removes whatever is bound under k *now*: if the stream was re-bound in between, the new entry is removed while the old
+// one was cleaned up. The removal must happen in the critical section of the look-up, or look the entry up again.
+func runC6c(p *Prog, o *obls, la *lockAnalysis, byField map[string]guardRow) {
+	mapField := func(v ssa.Value) string {
+		u, ok := p.origin(v).(*ssa.UnOp)
+		if !ok || u.Op != token.MUL {
+			return ""
+		}
+		fa, ok := u.X.(*ssa.FieldAddr)
+		if !ok {
+			return ""
+		}
+		return fieldKeyAddr(fa)
+	}
+	// getters: repository functions that acquire a lock, look a parameter up in a guarded map and return
+	type getter struct {
+		field string
+		param int
+	}
+	getters := map[*ssa.Function]getter{}
+	for _, fn := range p.Funcs {
+		if la.info[fn] == nil || la.info[fn].nAcq == 0 {
+			continue
+		}
+		instrsOf(fn, func(in ssa.Instruction) {
+			lk, ok := in.(*ssa.Lookup)
+			if !ok {
+				return
+			}
+			fk := mapField(lk.X)
+			row, guarded := byField[fk]
+			if !guarded || la.info[fn].before[lk][row.lock] == 0 {
+				return
+			}
+			if par, ok := p.origin(lk.Index).(*ssa.Parameter); ok {
+				for i, q := range fn.Params {
+					if q == par {
+						getters[fn] = getter{fk, i}
+					}
+				}
+			}
+		})
+	}
+	for _, fn := range p.Funcs {
+		li := la.info[fn]
+		if li == nil {
+			continue
+		}
+		n := 0
+		var bad []string
+		instrsOf(fn, func(in ssa.Instruction) {
+			del, ok := in.(*ssa.Call)
+			if !ok || builtinName(&del.Call) != "delete" {
+				return
+			}
+			fk := mapField(del.Call.Args[0])
+			row, guarded := byField[fk]
+			if !guarded || li.before[del][row.lock] == 0 {
+				return
+			}
+			kk := p.pureKey(del.Call.Args[1])
+			// the guard is released on some path from a to b that does not execute a again (a later execution of the
+			// look-up, in the next iteration of an enclosing loop, is a new look-up in a new critical section)
+			unlockBetween := func(a, b ssa.Instruction) bool {
+				found := false
+				instrsOf(fn, func(x ssa.Instruction) {
+					if c, ok := x.(*ssa.Call); ok {
+						if op, ok := lockOpOf(&c.Call); ok && op.id == row.lock && (op.kind == "Unlock" || op.kind == "RUnlock") && reachWithout(a, x, a) && reachWithout(x, b, a) {
+							found = true
+						}
+					}
+				})
+				return found
+			}
+			// a look-up of the same entry in the removal's own critical section re-validates
+			revalidated := false
+			instrsOf(fn, func(x ssa.Instruction) {
+				if lk, ok := x.(*ssa.Lookup); ok && mapField(lk.X) == fk && p.pureKey(lk.Index) == kk && canReach(lk, del) && li.before[lk][row.lock] > 0 && !unlockBetween(lk, del) {
+					revalidated = true
+				}
+			})
+			var earlier []string
+			instrsOf(fn, func(x ssa.Instruction) {
+				switch y := x.(type) {
+				case *ssa.Lookup:
+					if mapField(y.X) == fk && p.pureKey(y.Index) == kk && canReach(y, del) && unlockBetween(y, del) {
+						earlier = append(earlier, "the look-up at "+p.instrPos(y))
+					}
+				case *ssa.Call:
+					sc := y.Call.StaticCallee()
+					g, isGetter := getters[sc]
+					if !isGetter || g.field != fk || g.param >= len(y.Call.Args) || !canReach(y, del) || li.before[y][row.lock] > 0 {
+						return
+					}
+					if p.pureKey(y.Call.Args[g.param]) == kk {
+						earlier = append(earlier, fmt.Sprintf("the look-up through %s at %s", shortCallee(funcKey(sc)), p.instrPos(y)))
+					}
+				}
+			})
+			if len(earlier) == 0 {
+				return
+			}
+			n++
+			if !revalidated {
+				bad = append(bad, fmt.Sprintf("delete(%s, …) at %s removes the entry that is bound under the key now, but the entry was chosen by %s in an earlier critical section of %s: a re-bind in between is removed in place of the stream that was looked up", fk, p.instrPos(del), strings.Join(dedupe(earlier), ", "), row.lock))
+			}
+		})
+		if n == 0 {
+			continue
+		}
+		key := funcKey(fn) + ":lookup-delete"
+		if len(bad) > 0 {
+			o.bad("C6", key, p.Pos(fn.Pos()), strings.Join(dedupe(bad), "; "))
+		} else {
+			o.ok("C6", key, p.Pos(fn.Pos()), fmt.Sprintf("%d removal(s) after an earlier look-up, each re-validated in its own critical section", n))
+		}
+	}
+}
+
+// reachWithout: control can flow from just after `from` to `to` without executing `avoid` on the way.
+func reachWithout(from, to, avoid ssa.Instruction) bool {
+	fb, tb, ab := from.Block(), to.Block(), avoid.Block()
+	fi, ti, ai := instrIndex(from), instrIndex(to), instrIndex(avoid)
+	if fb == tb && fi < ti && !(ab == fb && ai > fi && ai < ti) {
+		return true
+	}
+	// leaving from's block: must not pass avoid later in that block
+	if ab == fb && ai > fi {
+		return false
+	}
+	seen := map[*ssa.BasicBlock]bool{}
+	work := append([]*ssa.BasicBlock{}, fb.Succs...)
+	for len(work) > 0 {
+		b := work[len(work)-1]
+		work = work[:len(work)-1]
+		if seen[b] {
+			continue
+		}
+		seen[b] = true
+		if b == tb {
+			if !(ab == tb && ai < ti) {
+				return true
+			}
+			continue // the target lies behind avoid in this block
+		}
+		if b == ab {
+			continue
+		}
+		work = append(work, b.Succs...)
+	}
+	return false
 }
 
 // runC6b: membership decided in an earlier critical section. A map update on a guarded map whose key was obtained from
